@@ -304,7 +304,38 @@ func c13(args []string) error {
 			ev.Emit(obj{"op": "shape", "closed": n > 3 && ext.PointAt(0) == ext.PointAt(n-1), "rectHasCentre": rect.ContainsPoint(c.Center()), "steps": n - 2 + b2i(n-2 < eff)*0, "requested": steps, "npoints": n, "src": "rec"})
 		}
 	}
-	printJSON(obj{"rows": len(rows), "rings": len(rings), "evaluations": evals, "mismatches": mism, "events": ev.N})
+	// recorded events: circle against circle at free positions and scales (the lattice relations above start at 6.9 km)
+	nccf := 0
+	for k := 0; k < nrec; k++ {
+		lat := rng.Float64()*160 - 80
+		lon := rng.Float64()*360 - 180
+		ra := math.Pow(10, rng.Float64()*8-2) // 1 cm .. 1000 km
+		rb := ra * []float64{0.03, 0.3, 0.9, 0.97, 1, 1.5, 4}[rng.Intn(7)]
+		want := []float64{0.02, 0.045, 0.5, 0.9, 1.1, 2, 6}[rng.Intn(7)] * ra
+		if k%3 == 0 { // aim next to a threshold: d + rb = ra(1 +- 8%) or d = (ra + rb)(1 +- 8%)
+			sgn := 1 + 0.08*float64(2*(k/3%2)-1)
+			if k%6 < 3 && rb < ra {
+				want = ra*sgn - rb
+			} else {
+				want = (ra + rb) * sgn
+			}
+		}
+		if want <= 0 || want > 5e6 {
+			continue
+		}
+		lat2, lon2 := geo.DestinationPoint(lat, lon, want, rng.Float64()*360)
+		d := chordDistance(lat, lon, lat2, lon2)
+		tol := math.Max(0.002, 0.03*ra)
+		if math.Abs(d+rb-ra) < tol || math.Abs(d-ra-rb) < tol || d > 100*ra || rb > 100*ra {
+			continue
+		}
+		a := geojson.NewCircle(geometry.Point{X: lon, Y: lat}, ra, 64)
+		b := geojson.NewCircle(geometry.Point{X: lon2, Y: lat2}, rb, []int{64, 12, 3}[k%3])
+		ev.Emit(obj{"op": "ccf", "d": int(math.Round(d / ra * 1e6)), "rb": int(math.Round(rb / ra * 1e6)), "contains": a.Contains(b), "intersects": a.Intersects(b),
+			"symmetric": a.Intersects(b) == b.Intersects(a) && a.Contains(b) == b.Within(a), "ra_m": ra, "centreA": []float64{lon, lat}, "centreB": []float64{lon2, lat2}, "src": "rec"})
+		nccf++
+	}
+	printJSON(obj{"rows": len(rows), "rings": len(rings), "evaluations": evals, "mismatches": mism, "events": ev.N, "free_circle_pairs": nccf})
 	return nil
 }
 
